@@ -167,6 +167,8 @@ func c13Atoms() map[string][]vexpr {
 	add("[]int", vexpr{Expr: "@Sl[1:]", Kind: "slice"})
 	add("[]int", vexpr{Expr: "@Arr[:2]", Kind: "slice-of-array"})
 	add("[]int", vexpr{Expr: "@Sl[0:1:2]", Kind: "slice3"})
+	add("[]int", vexpr{Expr: "@Arr[:1:2]", Kind: "slice3-of-array"})
+	add("[]int", vexpr{Expr: "@Sl[:2:2][1:]", Kind: "slice-of-slice3"})
 	add("[]int", vexpr{Expr: "[]int{1, 2}", Kind: "composite", PtrLike: true})
 	add("[]int", vexpr{Expr: "[]int(nil)", Kind: "nil-conversion"})
 	add("[3]int", vexpr{Expr: "@Arr", Kind: "atom"})
